@@ -492,7 +492,8 @@ class TaskScenario(ScenarioData):
                                 dep_time_idx = self.project.dateToIdx(dep_time)
                                 # Skip gap_slots of working time
                                 working_slots = 0
-                                while working_slots < gap_slots:
+                                sb_size = self.project.scoreboardSize()
+                                while working_slots < gap_slots and dep_time_idx < sb_size:
                                     if self.isWorkingTime(dep_time_idx):
                                         working_slots += 1
                                     dep_time_idx += 1
@@ -570,6 +571,11 @@ class TaskScenario(ScenarioData):
                 if end_date:
                     # For ALAP, start from the last working slot BEFORE the end date
                     self.currentSlotIdx = self.project.dateToIdx(end_date) - 1
+                    if self.currentSlotIdx > self.project.dateToIdx(self.project["end"]):
+                        # Deadline beyond the project time frame: the walk back from
+                        # there would not be bounded by the size of the project
+                        self.isRunAway = True
+                        return False
                     # Find the last working slot
                     # For effort tasks with allocations, check resource availability
                     # (respects resource timezone and working hours)
@@ -620,6 +626,12 @@ class TaskScenario(ScenarioData):
         delta = 1 if forward else -1
         lowerLimit = self.project.dateToIdx(self.project["start"])
         upperLimit = self.project.dateToIdx(self.project["end"])
+
+        # A task whose first slot already lies outside the project time frame
+        # (pinned date or dependency bound beyond it) cannot be scheduled
+        if self.currentSlotIdx < lowerLimit or self.currentSlotIdx > upperLimit:
+            self.isRunAway = True
+            return False
 
         previous_effort = self.doneEffort
         while self.scheduleSlot():
